@@ -173,6 +173,13 @@ func (g *Gen) fieldType(depth int) fieldChoice {
 			g.count("opt.flat")
 			return fieldChoice{t, "flat"}
 		}
+		// a tag option passes through a pointer to the element's codec
+		if t.K == "ptr" {
+			if u := t.Elem.under(); len(u.K) >= 3 && u.K[:3] == "int" && g.r.P(40) && !(g.noNarrowFlat && bitsOf(u.K) < 64) {
+				g.count("opt.flat-ptr")
+				return fieldChoice{t, "flat"}
+			}
+		}
 		return fieldChoice{t, ""}
 	case 3:
 		return fieldChoice{g.ftype(), ""}
